@@ -110,6 +110,11 @@ type c17Job struct {
 	runningAtLastReconcile bool
 	resvChangedSince       bool
 
+	// every status write of the job that reached the API, in order (what a watcher of the API sees)
+	phasesWritten   []sev1alpha1.PodMigrationJobPhase
+	writtenTerminal sev1alpha1.PodMigrationJobPhase // first Succeeded/Failed that was written
+	nameOnlyRef     bool                            // user-supplied reservationRef without UID
+
 	// the pattern "unschedulable report -> reconcile records ReservationScheduled=False -> reservation scheduled on the
 	// target pod's own node -> reconcile": 1 = False condition persisted, 2 = then scheduled on the pod's node, 3 = then reconciled
 	unschedThenSameNode int
@@ -138,6 +143,7 @@ type c17Env struct {
 	justEvicted       bool
 
 	evictImmediate bool
+	userInput      bool // second test: jobs as users write them (name-only reservationRef, unresolvable podRef), TTL expiry favoured
 	colocated      bool // generator profile: several reservation-first jobs of one workload whose reservations tend to share a node
 	jobs           []*c17Job
 	pods           []string
@@ -147,6 +153,7 @@ type c17Env struct {
 
 	// distribution
 	sawRestart, sawFaultAfterEvict, sawResvChangeWhileRunning, sawSameNode, sawEvictReplacement bool
+	sawTTLAbortNameOnlyRef, sawFirstReconcileNoPod, sawWriteAfterTerminalWrite                  bool
 	sawOrphanAtTTL, sawTTLAbortWithResv, sawEvictRetry, sawBoundBeforeEvict, sawClockPastTTL    bool
 }
 
@@ -233,10 +240,17 @@ func c17NewEnv(c *vk.Case, scheme *runtime.Scheme) *c17Env {
 				return c17InjectedErr()
 			}
 			if fail {
-				_ = cl.SubResource(sub).Update(ctx, obj.DeepCopyObject().(client.Object), opts...)
+				lost := obj.DeepCopyObject().(client.Object)
+				if cl.SubResource(sub).Update(ctx, lost, opts...) == nil {
+					e.onStatusWritten(sub, lost)
+				}
 				return c17InjectedErr()
 			}
-			return cl.SubResource(sub).Update(ctx, obj, opts...)
+			err := cl.SubResource(sub).Update(ctx, obj, opts...)
+			if err == nil {
+				e.onStatusWritten(sub, obj)
+			}
+			return err
 		},
 	})
 	return e
@@ -306,6 +320,9 @@ func (e *c17Env) getResv(name string) *sev1alpha1.Reservation {
 }
 
 func (e *c17Env) getPod(name string) *corev1.Pod {
+	if name == "" {
+		return nil
+	}
 	p := &corev1.Pod{}
 	if err := e.base.Get(c17Ctx, types.NamespacedName{Namespace: c17NS, Name: name}, p); err != nil {
 		return nil
@@ -409,6 +426,8 @@ func (e *c17Env) onEvict(ctx context.Context, job *sev1alpha1.PodMigrationJob, p
 	e.hist = append(e.hist, fmt.Sprintf("    Evict(job=%s pod=%s uid=%s node=%q) with reservation %s", job.Name, pod.Name, pod.UID, pod.Spec.NodeName, c17ResvString(resv)))
 	if api != nil && c17Terminal(api.Status.Phase) {
 		e.stamp("terminal:evict-for-finished-job", "Evict issued for job %s whose persisted phase is %s", job.Name, api.Status.Phase)
+	} else if j.writtenTerminal != "" {
+		e.stamp("terminal:evict-for-finished-job", "Evict issued for job %s after phase %s had been written to the API (status writes so far: %v)", job.Name, j.writtenTerminal, j.phasesWritten)
 	}
 	if !j.direct {
 		if sig := c17Gate(resv, pod); sig != "" {
@@ -461,6 +480,35 @@ func (e *c17Env) onCreateReservation(job *sev1alpha1.PodMigrationJob) {
 	j.creates++
 	if api := e.getJob(job.Name); api != nil && c17Terminal(api.Status.Phase) {
 		e.stamp("terminal:reservation-for-finished-job", "CreateReservation issued for job %s whose persisted phase is %s", job.Name, api.Status.Phase)
+	} else if j.writtenTerminal != "" {
+		e.stamp("terminal:reservation-for-finished-job", "CreateReservation issued for job %s after phase %s had been written to the API (status writes so far: %v)", job.Name, j.writtenTerminal, j.phasesWritten)
+	}
+}
+
+// onStatusWritten sees every PodMigrationJob status write of the controller that reached the API (clause 2 over the
+// write history: the phase a watcher observes never leaves Succeeded/Failed, also not for the duration of one reconcile).
+func (e *c17Env) onStatusWritten(sub string, obj client.Object) {
+	job, ok := obj.(*sev1alpha1.PodMigrationJob)
+	if !ok || sub != "status" {
+		return
+	}
+	j := e.job(job.Name)
+	if j == nil {
+		return
+	}
+	if n := len(j.phasesWritten); n == 0 || j.phasesWritten[n-1] != job.Status.Phase {
+		e.hist = append(e.hist, fmt.Sprintf("    status write: phase=%q reason=%q", job.Status.Phase, job.Status.Reason))
+	}
+	j.phasesWritten = append(j.phasesWritten, job.Status.Phase)
+	if j.writtenTerminal != "" {
+		e.sawWriteAfterTerminalWrite = true
+		if job.Status.Phase != j.writtenTerminal {
+			e.stamp("terminal:phase-rewritten", "job %s had phase %s written to the API, a later status write carries phase %q (reason %q); status writes in order: %v", job.Name, j.writtenTerminal, job.Status.Phase, job.Status.Reason, j.phasesWritten)
+		}
+		return
+	}
+	if c17Terminal(job.Status.Phase) {
+		j.writtenTerminal = job.Status.Phase
 	}
 }
 
@@ -583,6 +631,19 @@ func (e *c17Env) createJob(t *rapid.T) {
 	podName := rapid.SampledFrom(e.pods).Draw(t, "jobPod")
 	pod := e.getPod(podName)
 	origin := rapid.SampledFrom([]string{"user", "user", "descheduler", "preset-ref"}).Draw(t, "origin")
+	invalidPodRef, nameOnlyRef := false, false
+	if e.userInput {
+		switch rapid.SampledFrom([]string{"name-only-ref", "name-only-ref", "name-only-ref", "uid-ref", "plain", "plain", "invalid-podref"}).Draw(t, "userInput") {
+		case "name-only-ref":
+			origin, nameOnlyRef = "preset-ref", true
+		case "uid-ref":
+			origin = "preset-ref"
+		case "invalid-podref":
+			origin, invalidPodRef = "user", true
+		default:
+			origin = "user"
+		}
+	}
 	if e.colocated && origin == "descheduler" {
 		origin = "user"
 	}
@@ -610,6 +671,15 @@ func (e *c17Env) createJob(t *rapid.T) {
 		if d := rapid.SampledFrom([]time.Duration{-1, 0, 30 * time.Second, 5 * time.Minute, 5 * time.Minute}).Draw(t, "ttl"); d >= 0 {
 			ttl = &metav1.Duration{Duration: d}
 		}
+		if e.userInput && origin == "preset-ref" {
+			// a user who prepares a Reservation wants reservation-first; give the job a deadline most of the time
+			if mode == sev1alpha1.PodMigrationJobModeEvictionDirectly {
+				mode = sev1alpha1.PodMigrationJobModeReservationFirst
+			}
+			if (ttl == nil || ttl.Duration == 0) && rapid.IntRange(0, 3).Draw(t, "giveTTL") > 0 {
+				ttl = &metav1.Duration{Duration: rapid.SampledFrom([]time.Duration{30 * time.Second, 5 * time.Minute}).Draw(t, "userTTL")}
+			}
+		}
 		if e.colocated {
 			if mode == sev1alpha1.PodMigrationJobModeEvictionDirectly {
 				mode = sev1alpha1.PodMigrationJobModeReservationFirst
@@ -624,6 +694,11 @@ func (e *c17Env) createJob(t *rapid.T) {
 		}
 		if pod != nil && rapid.Bool().Draw(t, "podRefHasUID") {
 			job.Spec.PodRef.UID = pod.UID
+		}
+		if invalidPodRef {
+			// spec.podRef without a name: the controller has an explicit InvalidPodRef abort for it
+			job.Spec.PodRef = &corev1.ObjectReference{Namespace: c17NS}
+			j.podName, j.podUID, podName = "", "", ""
 		}
 		if origin == "preset-ref" {
 			// the user points the job at a Reservation that already exists (allocate-once, owned by the pod's workload)
@@ -642,6 +717,11 @@ func (e *c17Env) createJob(t *rapid.T) {
 			}
 			job.Spec.ReservationOptions = &sev1alpha1.PodMigrateReservationOptions{ReservationRef: &corev1.ObjectReference{
 				Kind: "Reservation", APIVersion: "scheduling.koordinator.sh/v1alpha1", Name: resv.Name, UID: resv.UID}}
+			if nameOnlyRef {
+				// ObjectReference.UID is optional; a hand-written reference normally carries just the name
+				job.Spec.ReservationOptions.ReservationRef = &corev1.ObjectReference{Name: resv.Name}
+				j.nameOnlyRef = true
+			}
 			j.resvName = resv.Name
 		}
 		if err := e.base.Create(c17Ctx, job); err != nil {
@@ -663,6 +743,12 @@ func (e *c17Env) createJob(t *rapid.T) {
 	}
 	e.jobs = append(e.jobs, j)
 	e.hist = append(e.hist, fmt.Sprintf("create job %s origin=%s mode=%q(direct=%v) ttl=%v pod=%s(uid %s) reservation-name=%s", j.name, origin, mode, j.direct, j.ttl, podName, j.podUID, j.resvName))
+	if invalidPodRef {
+		e.hist = append(e.hist, "    (spec.podRef of "+j.name+" has no name)")
+	}
+	if j.nameOnlyRef {
+		e.hist = append(e.hist, "    (spec.reservationOptions.reservationRef of "+j.name+" carries only the name, no UID)")
+	}
 }
 
 var c17UUIDCounter int
@@ -686,6 +772,9 @@ func (e *c17Env) reconcile(t *rapid.T, j *c17Job) {
 	ev0, cr0 := j.evicts, j.creates
 	e.stamps = e.stamps[:0]
 	e.hist = append(e.hist, fmt.Sprintf("reconcile %s (t=+%v, reconciler #%d)", j.name, e.clk.Now().Sub(c17Epoch), e.gen))
+	if (prePhase == "" || prePhase == sev1alpha1.PodMigrationJobPending) && e.getPod(j.podName) == nil {
+		e.sawFirstReconcileNoPod = true
+	}
 	res, err := e.r.Reconcile(c17Ctx, reconcile.Request{NamespacedName: types.NamespacedName{Name: j.name}})
 	e.justEvicted = false
 	post := e.getJob(j.name)
@@ -731,6 +820,9 @@ func (e *c17Env) reconcile(t *rapid.T, j *c17Job) {
 			name := post.Spec.ReservationOptions.ReservationRef.Name
 			if j.creates > 0 || j.origin == "preset-ref" {
 				e.sawTTLAbortWithResv = true
+			}
+			if j.nameOnlyRef {
+				e.sawTTLAbortNameOnlyRef = true
 			}
 			if left := e.getResv(name); left != nil {
 				if e.c.Violation(t, "ttl:reservation-not-deleted", "job %s failed with reason Timeout but its reservation %s still exists; history:%s", j.name, c17ResvString(left), e.history()) {
@@ -803,8 +895,15 @@ func (e *c17Env) pickNode(t *rapid.T, j *c17Job) string {
 
 // ---------------------------------------------------------------- the test
 
-func TestVerifC17History(t *testing.T) {
-	rec := vk.New(t, "C17", "history")
+func TestVerifC17History(t *testing.T) { c17RunTest(t, "history", false) }
+
+// TestVerifC17UserInput is the same state machine over jobs the way users write them: spec.reservationOptions.reservationRef
+// pointing at a prepared Reservation by name only, spec.podRef that cannot be resolved, deadlines that are reached.
+// (A separate test function so that the draw sequence of TestVerifC17History, and its recorded fail files, stay as they are.)
+func TestVerifC17UserInput(t *testing.T) { c17RunTest(t, "userInput", true) }
+
+func c17RunTest(t *testing.T, unit string, userInput bool) {
+	rec := vk.New(t, "C17", unit)
 	c17QuietKlog()
 	scheme := c17Scheme()
 	oldUUID := UUIDGenerateFn
@@ -819,6 +918,7 @@ func TestVerifC17History(t *testing.T) {
 		defer c.End()
 		c17UUIDCounter = 0
 		e := c17NewEnv(c, scheme)
+		e.userInput = userInput
 
 		var v1a2 v1alpha2.MigrationControllerArgs
 		v1alpha2.SetDefaults_MigrationControllerArgs(&v1a2)
@@ -1122,7 +1222,7 @@ func TestVerifC17History(t *testing.T) {
 				}
 				d := rapid.SampledFrom([]time.Duration{time.Second, 3 * time.Second, 3 * time.Second, 10 * time.Second, time.Minute}).Draw(t, "d")
 				j := pickJob(t)
-				if j.ttl > 0 && rapid.IntRange(0, 2).Draw(t, "toTTL") == 2 {
+				if j.ttl > 0 && (rapid.IntRange(0, 2).Draw(t, "toTTL") == 2 || (e.userInput && rapid.Bool().Draw(t, "toTTL2"))) {
 					// land exactly on, one second before or one second after the job's deadline
 					target := j.created.Add(j.ttl).Add(time.Duration(rapid.IntRange(-1, 1).Draw(t, "delta")) * time.Second)
 					if target.After(e.clk.Now()) {
@@ -1266,6 +1366,13 @@ func TestVerifC17History(t *testing.T) {
 		c.ClassIf(e.sawClockPastTTL, "clock-passes-ttl-of-live-job")
 		c.ClassIf(e.sawTTLAbortWithResv, "ttl-abort-with-reservation")
 		c.ClassIf(e.sawOrphanAtTTL, "ttl-abort-leaves-unreferenced-reservation(not asserted)")
+		c.ClassIf(e.sawTTLAbortNameOnlyRef, "ttl-abort-of-job-with-name-only-reservation-ref")
+		c.ClassIf(e.sawFirstReconcileNoPod, "unstarted-job-reconciled-while-target-pod-unresolvable")
+		c.ClassIf(e.sawWriteAfterTerminalWrite, "status-write-after-terminal-phase-was-written")
+		for _, j := range e.jobs {
+			c.ClassIf(j.nameOnlyRef, "job-with-name-only-reservation-ref")
+			c.ClassIf(j.podName == "", "job-with-nameless-podref")
+		}
 		c.ClassIf(pendingPod, "pending-target-pod")
 		c.ClassIf(e.dead, "abandoned")
 		if e.sawResvChangeWhileRunning || e.sawFaultAfterEvict {
